@@ -225,6 +225,24 @@ func routeGen(kind string, sequential bool) func(r *rand.Rand, tier string) []sp
 			}
 			out = append(out, spec.Case{Kind: kind, P: spec.MustJSON(p)})
 		}
+		if kind == "grpcmux" {
+			// a listener that is closed at the moment a dial's stream arrives for it (in a host child of its
+			// own: the moment is found through a hook point that carries no id); the pairs that follow must
+			// be unaffected
+			for _, side := range []string{"host", "plugin"} {
+				p := spec.RouteCase{Kind: kind, Sequential: true, Seed: r.Int63n(1 << 30), JitterUs: 3000}
+				for j := uint32(1); j <= 2; j++ {
+					p.Items = append(p.Items, spec.RouteItem{Dir: "host", AcceptFirst: true, ID: j})
+					p.Items = append(p.Items, spec.RouteItem{Dir: "plugin", AcceptFirst: true, ID: j})
+				}
+				p.Items = append(p.Items, spec.RouteItem{Dir: side, AcceptFirst: true, ClosedUnderDial: true, ID: 3})
+				for j := uint32(4); j <= 6; j++ {
+					p.Items = append(p.Items, spec.RouteItem{Dir: "host", AcceptFirst: j%2 == 0, ID: j})
+					p.Items = append(p.Items, spec.RouteItem{Dir: "plugin", AcceptFirst: j%2 == 1, ID: j})
+				}
+				out = append(out, spec.Case{Kind: "solo:grpcmux/closed-under-dial:" + side, P: spec.MustJSON(p)})
+			}
+		}
 		if kind == "mux" {
 			// the same rounds between the host and a real net/rpc plugin process
 			// (with and without AutoMTLS on the underlying connection)
@@ -395,6 +413,9 @@ func routeJudge(prop string) func(c spec.Case, evs []spec.Event, d *Death) CaseR
 			}
 			if it.StaleDial {
 				res.Counters["pairs_after_a_timed_out_dial"]++
+			}
+			if it.ClosedUnderDial {
+				res.Counters["pairs_after_a_listener_closed_under_its_dial"]++
 			}
 			if it.CallbackShape {
 				res.Counters["pairs_in_callback_shape"]++
@@ -572,7 +593,7 @@ func init() {
 		ID: "C08", Level: "exploration", Race: true, TestName: "TestC08",
 		Gen: routeGen("grpcmux", true), Batch: 2, Children: 8, PerCase: 40 * time.Second, Base: 120 * time.Second,
 		Judge: routeJudge("C08"), Finish: routeFinish("C08", "grpcbroker.accept.mux.registering", "grpcmux.server.accepted", "grpcmux.client.unblocked", "grpcbroker.knock.sent"),
-		Rule:        "a case = a sequence of 20-50 (quick) / 20-200 (thorough) brokered connections on one multiplexed in-process gRPC pair, established strictly one at a time (documented contract), each with random direction, accept-first or dial-first and gap 0-200 ms; after every establishment the control connection is pinged, the main service is called and every earlier brokered connection is re-pinged (must still be answered by its own id's server); seeded 0-3 ms jitter at the hook points between knock listener start, listener registration, knock acceptance and stream acceptance",
+		Rule:        "a case = a sequence of 20-50 (quick) / 20-200 (thorough) brokered connections on one multiplexed in-process gRPC pair, established strictly one at a time (documented contract), each with random direction, accept-first or dial-first and gap 0-200 ms; after every establishment the control connection is pinged, the main service is called and every earlier brokered connection is re-pinged (must still be answered by its own id's server); seeded 0-3 ms jitter at the hook points between knock listener start, listener registration, knock acceptance and stream acceptance; plus, in host children of their own, sequences in which a listener is closed at the very moment the stream of a dial for it arrives at the accepting side's muxer (that dial is not judged; the pairs before and after it are)",
 		Assumptions: []string{"concurrent establishment is out of scope (documented as unsupported) and never generated", "the main gRPC server does not implement PingPong, so a stream routed to the main listener shows as Unimplemented"},
 	})
 }
